@@ -347,8 +347,16 @@ def gen_call(rng, op: Op, force: Optional[str] = None) -> dict:
             if tstr not in bind:
                 cands = [p for p in (parse_type_str(s) for s in tc[tstr]) if p]
                 pref = [c for c in cands if c == ("tensor", 1) or c == ("tensor", 7) or c == ("tensor", 11)]
+                def inner(c):
+                    while c[0] != "tensor":
+                        c = c[1]
+                    return c[1]
+                prev = [inner(b) for b in bind.values() if b]
+                coh = [c for c in cands if prev and inner(c) == prev[0]]
                 if not cands:
                     bind[tstr] = None
+                elif coh and rng.random() < 0.7:
+                    bind[tstr] = rng.choice(coh)
                 elif pref and rng.random() < 0.55:
                     bind[tstr] = rng.choice(pref)
                 else:
@@ -630,18 +638,104 @@ def _r_same(rng, call, base):
                 v["ty"] = {"t": v["ty"]["t"], "s": list(base)}
 
 
+def _const(call, argi, elem, shape, data):
+    a = call["args"][argi] if argi < len(call["args"]) else None
+    if a is None or isinstance(a, list):
+        return
+    call["vars"][a] = {"ty": {"t": elem, "s": shape}, "const": {"dtype": elem, "shape": shape, "data": data}}
+
+
+def _r_bn(rng, call, base):
+    _r_batchnorm(rng, call, base)
+    if call["op"] == "BatchNormalization" and rng.random() < 0.6:
+        call["attrs"]["training_mode"] = 1
+
+
+def _r_roialign(rng, call, base):
+    R = rng.choice([1, 3, "R"])
+    _set_shape(call, 0, [rng.choice([1, 2]), 3, rng.choice([6, 8]), rng.choice([6, None])])
+    _set_shape(call, 1, [R, 5 if call["op"] == "MaxRoiPool" else 4])
+    if call["op"] == "RoiAlign":
+        _set_shape(call, 2, [R], elem=7)
+    else:
+        call["attrs"]["pooled_shape"] = [2, 2]
+
+
+def _r_onehot(rng, call, base):
+    if rng.random() < 0.5:
+        _const(call, 1, 7, [], [rng.choice([2, 3])])
+    else:
+        _set_shape(call, 1, rng.choice([[], [1]]))
+    _set_shape(call, 2, [2])
+
+
+def _r_1d(argi, lens=(1, 2, 3, "N")):
+    def f(rng, call, base):
+        _set_shape(call, argi, [rng.choice(list(lens))])
+    return f
+
+
+def _r_strnorm(rng, call, base):
+    _set_shape(call, 0, rng.choice([[3], [1, 3], ["C"], [1, "C"]]))
+
+
+def _r_multinomial(rng, call, base):
+    _set_shape(call, 0, [rng.choice([1, 2, "N"]), rng.choice([3, 4])])
+    if "dtype" in call["attrs"]:
+        e = rng.choice([6, 7])
+        call["attrs"]["dtype"] = {"dtype": e} if isinstance(call["attrs"]["dtype"], dict) else e
+
+
+def _r_affinegrid(rng, call, base):
+    _set_shape(call, 0, [rng.choice([1, 2, "N"]), 2, 3])
+    if rng.random() < 0.7:
+        _const(call, 1, 7, [4], [rng.choice([1, 2]), 3, 4, 5])
+    else:
+        _set_shape(call, 1, [4])
+
+
+def _r_gridsample(rng, call, base):
+    N = rng.choice([1, 2, "N"])
+    _set_shape(call, 0, [N, 3, 4, 5])
+    _set_shape(call, 1, [N, rng.choice([2, 6]), rng.choice([2, 7]), 2])
+    call["attrs"].pop("mode", None)
+
+
+def _r_labelenc(rng, call, base):
+    n = rng.randint(1, 3)
+    call["attrs"] = {"keys_int64s": list(range(n)), "values_floats": [0.5] * n}
+    _set_shape(call, 0, _rand_dims(rng, rng.randint(0, 2)), elem=7)
+
+
+def _r_dft(rng, call, base):
+    _set_shape(call, 0, [rng.choice([1, 2]), rng.choice([4, 8, "N"]), rng.choice([1, 2])])
+    for i in range(1, len(call["args"])):
+        _set_shape(call, i, [])
+
+
+def _r_col2im(rng, call, base):
+    _set_shape(call, 0, [rng.choice([1, "N"]), 4, 9])
+    _const(call, 1, 7, [2], [4, 4])
+    _const(call, 2, 7, [2], [2, 2])
+    for k in ("dilations", "pads", "strides"):
+        call["attrs"].pop(k, None)
+
+
 RECIPES = {
+    "RoiAlign": _r_roialign, "MaxRoiPool": _r_roialign, "OneHot": _r_onehot, "ConstantOfShape": _r_1d(0),
+    "StringNormalizer": _r_strnorm, "Multinomial": _r_multinomial, "AffineGrid": _r_affinegrid,
+    "GridSample": _r_gridsample, "LabelEncoder": _r_labelenc, "DFT": _r_dft, "Col2Im": _r_col2im,
     "MatMul": _r_matmul, "MatMulInteger": _r_matmul, "Gemm": _r_gemm,
     "Conv": _r_conv, "ConvTranspose": _r_conv, "ConvInteger": _r_conv,
     "MaxPool": _r_pool, "AveragePool": _r_pool, "LpPool": _r_pool,
     "LSTM": _r_rnn, "GRU": _r_rnn, "RNN": _r_rnn,
-    "BatchNormalization": _r_batchnorm, "InstanceNormalization": _r_batchnorm,
+    "BatchNormalization": _r_bn, "InstanceNormalization": _r_batchnorm,
     "Clip": _r_scalar_rest(1), "Concat": _r_same, "Sum": _r_same, "Mean": _r_same, "Max": _r_same, "Min": _r_same,
     "Where": _r_same, "PRelu": _r_same, "Range": _r_scalar_rest(0), "CumSum": _r_scalar_rest(1),
     "DequantizeLinear": _r_scalar_rest(1), "QuantizeLinear": _r_scalar_rest(1),
     "DynamicQuantizeLinear": _r_same, "Dropout": _r_scalar_rest(1), "SequenceInsert": _r_scalar_rest(2),
     "SequenceAt": _r_scalar_rest(1), "SequenceErase": _r_scalar_rest(1), "SplitToSequence": _r_same,
-    "Bernoulli": _r_same, "Celu": _r_same, "OneHot": None, "Trilu": _r_scalar_rest(1),
+    "Bernoulli": _r_same, "Celu": _r_same, "Trilu": _r_scalar_rest(1),
 }
 RECIPES = {k: v for k, v in RECIPES.items() if v}
 
@@ -663,7 +757,7 @@ def oracle_attr(sch, aname, val):
     return onnx.helper.make_attribute(aname, val, attr_type=a.type)
 
 
-def oracle_model(op: Op, call, explicit_defaults: bool = False) -> onnx.ModelProto:
+def oracle_model(op: Op, call, explicit_defaults: bool = False, optional_outputs: bool = True) -> onnx.ModelProto:
     """The node written down directly from the schema and the argument list, in a one-node model.
     Value names: `i<var id>` for inputs, `o<k>` for outputs. An attribute left at its default is
     either omitted or (explicit_defaults) written with the schema's default value - by the ONNX
@@ -684,8 +778,12 @@ def oracle_model(op: Op, call, explicit_defaults: bool = False) -> onnx.ModelPro
     for p in sch.outputs:
         if p.option == O.Variadic:
             outs += [f"o{len(outs) + k}" for k in range(call["out_count"] or 1)]
+        elif p.option == O.Optional and not optional_outputs:
+            outs.append("")
         else:
             outs.append(f"o{len(outs)}")
+    while len(outs) > sch.min_output and outs[-1] == "":
+        outs.pop()
     node = onnx.helper.make_node(op.name, names, outs, name="n", domain=op.domain)
     for aname, val in call["attrs"].items():
         node.attribute.append(oracle_attr(sch, aname, val))
@@ -707,14 +805,19 @@ def oracle_model(op: Op, call, explicit_defaults: bool = False) -> onnx.ModelPro
                 inits.append(onnx.helper.make_tensor(f"i{v}", 8, c["shape"], [s.encode() for s in c["data"]]))
             else:
                 inits.append(onnx.numpy_helper.from_array(const_array(c), f"i{v}"))
-    goutputs = [onnx.helper.make_value_info(o, onnx.TypeProto()) for o in outs]
+    goutputs = [onnx.helper.make_value_info(o, onnx.TypeProto()) for o in outs if o]
     graph = onnx.helper.make_graph([node], "g", ginputs, goutputs, inits)
     return onnx.helper.make_model(graph, opset_imports=[onnx.helper.make_operatorsetid(op.domain, op.modver)])
 
 
-def oracle_run(op: Op, call, explicit_defaults: bool = False) -> dict:
+def has_optional_outputs(op: Op) -> bool:
+    O = onnx.defs.OpSchema.FormalParameterOption
+    return any(p.option == O.Optional for p in op.schema().outputs)
+
+
+def oracle_run(op: Op, call, explicit_defaults: bool = False, optional_outputs: bool = True) -> dict:
     """ONNX's strict type-and-shape inference on the hand-built node."""
-    model = oracle_model(op, call, explicit_defaults)
+    model = oracle_model(op, call, explicit_defaults, optional_outputs)
     known = set()
     for v in call["vars"]:
         dim_params(v["ty"], known)
